@@ -17,6 +17,7 @@ type runner struct {
 	// classes already reported: documents showing the same class are counted, not shrunk again
 	reported map[string]bool
 	slowest  int64
+	generic  int // distinct unclassified AST mismatches reported so far
 }
 
 const timeoutMillis = 5000
@@ -256,11 +257,26 @@ func shrinkDoc(d *Doc, fails func(*Doc) bool) *Doc {
 					}
 					if try(func(c *Doc) bool {
 						f := (*lists(c.Defs[di])[li])[i]
-						r := f.Type.Kind != 0 || f.Type.Anns.Present
-						if f.Type.Kind != 0 {
-							f.Type = &Type{Name: "i32"}
+						v := f.Default
+						if v == nil || v.Kind < 4 {
+							return false
 						}
-						f.Type.Anns = Anns{}
+						if len(v.List) > 0 {
+							f.Default = v.List[0]
+							return true
+						}
+						if len(v.Map) > 0 {
+							f.Default = v.Map[0][0]
+							return true
+						}
+						return false
+					}) {
+						changed = true
+					}
+					if try(func(c *Doc) bool {
+						f := (*lists(c.Defs[di])[li])[i]
+						r := f.Type.Kind != 0 || f.Type.Anns.Present || f.Type.Name != "i32"
+						f.Type = &Type{Name: "i32"}
 						return r
 					}) {
 						changed = true
@@ -275,9 +291,42 @@ func shrinkDoc(d *Doc, fails func(*Doc) bool) *Doc {
 					}
 				}
 			}
+			if try(func(c *Doc) bool { x := c.Defs[di]; r := x.Extends != ""; x.Extends = ""; return r }) {
+				changed = true
+			}
+			for fi := range cur.Defs[di].Funcs {
+				fi := fi
+				if try(func(c *Doc) bool { f := c.Defs[di].Funcs[fi]; r := f.Anns.Present; f.Anns = Anns{}; return r }) {
+					changed = true
+				}
+				if try(func(c *Doc) bool {
+					f := c.Defs[di].Funcs[fi]
+					r := !f.Void || f.Oneway
+					f.Void, f.Oneway, f.Type = true, false, nil
+					return r
+				}) {
+					changed = true
+				}
+				if try(func(c *Doc) bool {
+					f := c.Defs[di].Funcs[fi]
+					r := f.HasThrows && len(f.Throws) == 0
+					if r {
+						f.HasThrows = false
+					}
+					return r
+				}) {
+					changed = true
+				}
+			}
+			for vi := range cur.Defs[di].Vals {
+				vi := vi
+				if try(func(c *Doc) bool { v := c.Defs[di].Vals[vi]; r := v.Anns.Present; v.Anns = Anns{}; return r }) {
+					changed = true
+				}
+			}
 			if try(func(c *Doc) bool {
 				x := c.Defs[di]
-				if x.Type == nil || (x.Type.Kind == 0 && !x.Type.Anns.Present) {
+				if x.Type == nil || (x.Type.Kind == 0 && !x.Type.Anns.Present && x.Type.Name == "i32") {
 					return false
 				}
 				x.Type = &Type{Name: "i32"}
@@ -296,20 +345,95 @@ func shrinkDoc(d *Doc, fails func(*Doc) bool) *Doc {
 				changed = true
 			}
 			// a container constant: keep one element
-			if try(func(c *Doc) bool {
-				x := c.Defs[di]
-				if x.Value == nil || x.Value.Kind < 4 {
+			for k := 0; k < 8; k++ {
+				k := k
+				if try(func(c *Doc) bool {
+					x := c.Defs[di]
+					if x.Value == nil || x.Value.Kind < 4 {
+						return false
+					}
+					if k < len(x.Value.List) {
+						x.Value = x.Value.List[k]
+						return true
+					}
+					if k/2 < len(x.Value.Map) {
+						x.Value = x.Value.Map[k/2][k%2]
+						return true
+					}
 					return false
+				}) {
+					changed = true
 				}
-				if len(x.Value.List) > 0 {
-					x.Value = x.Value.List[len(x.Value.List)-1]
-					return true
+			}
+		}
+		if !changed {
+			break
+		}
+	}
+	// annotation lists: drop entries one at a time, blank values
+	var annLists func(c *Doc) []*Anns
+	annLists = func(c *Doc) []*Anns {
+		var out []*Anns
+		var ty func(t *Type)
+		ty = func(t *Type) {
+			if t == nil {
+				return
+			}
+			out = append(out, &t.Anns)
+			ty(t.K)
+			ty(t.V)
+		}
+		fl := func(fs []*Field) {
+			for _, f := range fs {
+				out = append(out, &f.Anns)
+				ty(f.Type)
+			}
+		}
+		for _, h := range c.Headers {
+			out = append(out, &h.Anns)
+		}
+		for _, x := range c.Defs {
+			out = append(out, &x.Anns)
+			ty(x.Type)
+			fl(x.Fields)
+			for _, v := range x.Vals {
+				out = append(out, &v.Anns)
+			}
+			for _, f := range x.Funcs {
+				out = append(out, &f.Anns)
+				ty(f.Type)
+				fl(f.Args)
+				fl(f.Throws)
+			}
+		}
+		return out
+	}
+	for round := 0; round < 4; round++ {
+		changed := false
+		for ai := range annLists(cur) {
+			ai := ai
+			for i := len(annLists(cur)[ai].List) - 1; i >= 0; i-- {
+				i := i
+				if try(func(c *Doc) bool { a := annLists(c)[ai]; a.List = append(a.List[:i], a.List[i+1:]...); return true }) {
+					changed = true
+					continue
 				}
-				if len(x.Value.Map) > 0 {
-					x.Value = x.Value.Map[len(x.Value.Map)-1][1]
-					return true
+				if try(func(c *Doc) bool {
+					a := annLists(c)[ai]
+					r := a.List[i].Val != "v" || a.List[i].Key != "k"
+					a.List[i].Val = "v"
+					return r && a.List[i].Key != ""
+				}) {
+					changed = true
 				}
-				return false
+			}
+			if try(func(c *Doc) bool {
+				a := annLists(c)[ai]
+				r := a.Present && len(a.List) == 0
+				if r {
+					a.Present = false
+				}
+				return r
 			}) {
 				changed = true
 			}
@@ -328,19 +452,55 @@ func shrinkDoc(d *Doc, fails func(*Doc) bool) *Doc {
 				n++
 				f.Name = fmt.Sprintf("f%d", n)
 			}
+			for _, v := range x.Vals {
+				n++
+				v.Name = fmt.Sprintf("V%d", n)
+			}
+			for _, fn := range x.Funcs {
+				n++
+				fn.Name = fmt.Sprintf("m%d", n)
+				for _, f := range append(append([]*Field{}, fn.Args...), fn.Throws...) {
+					n++
+					f.Name = fmt.Sprintf("a%d", n)
+				}
+			}
 		}
 		return true
 	})
 	return cur
 }
 
-func (x *runner) reportDoc(d *Doc, v docVerdict) {
+// classOf names a failure by the suspect spelling the document contains and by what went wrong; a rejection and a
+// wrong AST are different failures even for the same spelling.
+func classOf(d *Doc, v docVerdict) string {
 	cls := d.features().class()
 	if cls == "" && len(d.Headers) == 0 && len(d.Defs) == 0 {
 		cls = "empty-document"
 	}
+	if cls == "" {
+		return ""
+	}
+	rejected := strings.HasPrefix(v.observed, "error")
+	switch {
+	case cls == "empty-document" || cls == "fieldid-range":
+		if !rejected && cls == "empty-document" {
+			return cls + "/wrong-ast"
+		}
+		return cls
+	case rejected:
+		return cls + "/rejected"
+	}
+	return cls
+}
+
+func (x *runner) reportDoc(d *Doc, v docVerdict) {
+	cls := classOf(d, v)
 	if cls != "" && x.reported[cls] {
 		x.out.Count("oracle:" + cls + "-again")
+		return
+	}
+	if cls == "" && x.generic >= 3 {
+		x.out.Count("oracle:ast-mismatch-again")
 		return
 	}
 	fails := func(c *Doc) bool { return !judge(c, render(c, layCanon, 1)).ok }
@@ -349,12 +509,12 @@ func (x *runner) reportDoc(d *Doc, v docVerdict) {
 		min = shrinkDoc(d, fails)
 		v = judge(min, render(min, layCanon, 1))
 	}
-	key := min.features().class()
-	if key == "" && len(min.Headers) == 0 && len(min.Defs) == 0 {
-		key = "empty-document"
-	}
+	key := classOf(min, v)
 	if key == "" {
 		key = "ast:" + vl.Hex(v.text)
+		if !x.reported[key] {
+			x.generic++
+		}
 	}
 	x.reported[key] = true
 	x.out.Fail(vl.OracleFail{Key: key, What: v.what, Input: map[string]interface{}{"kind": "doc", "text": v.text, "hex": vl.Hex(v.text), "expected_ast": v.expected},
